@@ -9,12 +9,12 @@ for l in open(os.path.join(V, "properties.jsonl")):
 CHECKS = {
  "C11": dict(
   technique="TLA+ spec (Recovery.tla) model-checked with TLC over every placement of updates into checkpoint/segments/WAL; TLC-exported layouts materialised with the real writers, recovered with the real RecoveryManager (+WAL) and a real node; results judged by TLC (RecoveryTrace.tla) against CrdtOps!Merge",
-  text="design level: for every placement (with duplication) the recovery procedure equals the merge of all placed updates and is idempotent, and the as-built WAL filter reproduces its counterexample; implementation level: every exported layout and thousands of random ones are built with the real SegmentWriter/CheckpointWriter/ManifestManager/WalRotator, and recover(), recover_with_wal() and apply_recovered_state (1x, 3x) must equal the merge computed by TLC",
+  text="design level: for every placement (with duplication) the recovery procedure equals the merge of all placed updates and is idempotent, and the as-built WAL filter reproduces its counterexample; implementation level: every exported layout and thousands of random ones are built with the real SegmentWriter/CheckpointWriter/ManifestManager/WalRotator, and recover(), recover_with_wal() and apply_recovered_state (1x, 3x) must equal the merge computed by TLC; checkpoints written by the real CheckpointManager while flushes land between snapshot and write (published with compact_segments); a recovered state of 3k-40k updates of one key applied to a real node",
   note="update tables of 3-5 updates for the exhaustive part; kinds fixed per key; checkpoint coverage of skipped segments assumed consistent"),
  "C12": dict(
   technique="TLA+ spec (Streaming.tla) at object-store-call granularity model-checked with TLC (store image = crash image, all fault outcomes); TLC-exported workloads replayed on the real StreamingPersistence/Compactor over a scripted ObjectStore with a real recovery after every mutating call; traces validated by TLC (StreamTrace.tla); the second write buffer (write_buffer.rs) with overlapping flushes judged by WbufTrace.tla (Streaming.tla's buffer rule); the persistence pipeline of integration.rs judged by StreamTrace's call-level rules",
   text="design level: ManifestSound, ConfirmedRecoverable, RecoveryStable, NothingSilentlyDropped hold in every state of the ideal protocol with a fault anywhere, and the as-built switches reproduce their counterexamples; implementation level: every idle state of the sequential model becomes a workload run on the real code, the real RecoveryManager::recover runs on a copy of the image after EVERY mutating store call, and TLC requires that recovery succeeds, the manifest is sound, the recovered state absorbs every confirmed delta and invents nothing, and a failed flush keeps its buffer",
-  note="fault model: put stores all / nothing / a prefix; rename atomic, possibly applied-but-reported-failed; scripted store implements the public ObjectStore trait; <=1 fault per exported workload, random workloads with faults in several operations"),
+  note="fault model: put stores all / nothing / a prefix; rename atomic, possibly applied-but-reported-failed; scripted store implements the public ObjectStore trait; <=1 fault per exported workload, random workloads with faults in several operations; a fault may stay armed for 2-5 consecutive calls of a class (a read that keeps failing)"),
  "C13": dict(
   technique="TLA+ spec (Streaming.tla) with flush and compaction interleaved at store-call granularity and tombstone GC, model-checked with TLC; TLC-enumerated interleavings (495 schedules) gate the real Compactor and the real flush on a scripted ObjectStore; traces validated by TLC (StreamTrace.tla)",
   text="design level: RecoveryStable and ManifestSound for the ideal protocol under every interleaving, and counterexamples for blind manifest overwrite, latest-wins compaction and GC ignoring uncompacted segments; implementation level: sequential compaction workloads with faults, tombstone-GC layouts with a segment above the size target, and all interleavings of the 4 flush calls with the 8 compaction calls are executed on the real code with a real recovery after every mutating call",
@@ -34,22 +34,22 @@ CHECKS = {
  "C04": dict(
   technique="TLA+ spec (Connection.tla read loop / collectors / sequential loop) model-checked with TLC; TLC-exported wires and read deliveries replayed on the REAL OptimizedConnectionHandler (verif hook, one segment per read); decoded output judged by TLC (ConnTrace.tla) against sequential RedisKeyspace!Do",
   text="design level: OneReplyEachInOrder for all wires of <= 4 frames and all deliveries, with the latent as-built collector counterexample; implementation level: all 7212 exported (wire, delivery) scenarios and thousands of random pipelines (1-9 commands, thresholds 1/2/3/6, min buffer 0-200 bytes, cuts down to single bytes, 1 and 4 shards) run through the real handler; TLC requires one reply per command, in order, equal to the sequential run, an error for a malformed frame, and the sequential keyspace at the end",
-  note="wall clock: no TTL-dependent commands; bytes after a malformed frame in the same read are not judged, commands in later reads are owed replies unless the handler closed the connection; short writes by the transport are part of the input space"),
+  note="wall clock: no TTL-dependent commands; bytes after a malformed frame in the same read are not judged, commands in later reads are owed replies unless the handler closed the connection; short writes by the transport are part of the input space; the ACL extension (Acl.tla, AclTrace, harness_acl) runs with this check and only prints EXTENSION-OBSERVATION lines"),
  "C05": dict(
   technique="TLA+ transaction rules (ConnTrace.tla StepA/TxnFold on RedisKeyspace!Do); scripts with a second client writing in every gap run through TWO real connection handlers; every reply and the final keyspace judged by TLC",
   text="2500 (thorough 30000) scripts: watched key of four types, bodies with runtime failures, unknown commands, wrong arity, nested MULTI, WATCH inside MULTI, EXEC and DISCARD, client B writing same value / other value / delete / type-specific change / change-then-revert in every gap; TLC checks QUEUED/EXECABORT/nil rules, EXEC = sequential fold, and that aborted or discarded transactions leave the keyspace untouched",
   note="writes between A's commands only; value-based WATCH; one open finding reported as KNOWN-FINDING"),
  "C06": dict(
   technique="TLA+ spec (Replication.tla: executor + CRDT state + clock per node, reordering/duplicating/delaying network, anti-entropy) model-checked with TLC; TLC-exported step sequences replayed on real ReplicatedShardActors with the harness as network; traces validated by TLC (ReplTrace.tla); node-level multi-key commands on real ReplicatedShardedStates judged by ReplTrace!MultiKeyVerdict",
-  text="design level: ServedIsState at every step and Converged at quiescence on 3 nodes for register and hash command sets; each repaired defect and the open type-change finding are reproduced by an as-built switch; implementation level: every exported configuration and thousands of random runs (2-4 nodes, all listed commands, duplicates, delays, anti-entropy) are replayed on the real actors and TLC compares replication state and served value of EVERY node after EVERY step, and agreement whenever nothing is in flight",
+  text="design level: ServedIsState at every step and Converged at quiescence on 3 nodes for register and hash command sets; each repaired defect and the open type-change finding are reproduced by an as-built switch; implementation level: every exported configuration and thousands of random runs (2-4 nodes, all listed commands, duplicates, delays, anti-entropy) are replayed on the real actors and TLC compares replication state and served value of EVERY node after EVERY step, and agreement whenever nothing is in flight; the served TTL is part of the served value (ServedIsState covers it); the simulator's replicas (SimulatedNode under the same step rules; the whole MultiNodeSimulation with its own network, gossip and anti-entropy under SimClusterVerdict); a timed half of the node-level cluster family (shared clock, PX, eviction ticks, late deliveries)",
   note="one key per actor-level run (several keys in the node-level multi-key family), full replication; TTL replies not compared (expiry compared in the replication state); INCR/APPEND local outcome taken from the log"),
  "C08": dict(
   technique="TLA+ spec (NodeClock.tla) model-checked with TLC over writes/remote deltas/checkpoints/crash/recovery; exported lives replayed on a real ReplicatedShardedState; traces validated by TLC (NodeClockTrace.tla)",
-  text="design level: StampAboveSeen, NeverRepeats, NewestWins, ClockDominates over all interleavings of local writes, remote stamps, checkpoints and up to 2 crashes, with the as-built counterexample; implementation level: every exported life and thousands of random ones run on a real node (16 shard actors, snapshot_state/apply_recovered_state as restart) and TLC checks every issued stamp against everything the running node has observed for the key",
+  text="design level: StampAboveSeen, NeverRepeats, NewestWins, ClockDominates over all interleavings of local writes, remote stamps, checkpoints and up to 2 crashes, with the as-built counterexample; implementation level: every exported life and thousands of random ones run on a real node (16 shard actors, snapshot_state/apply_recovered_state as restart) and TLC checks every issued stamp against everything the running node has observed for the key; every fourth life with a real always-fsync WAL actor attached to the node (the node decides what is durable; recovery replays the real WAL); writes with short and long TTLs among the local writes",
   note="durability of acknowledged writes assumed (C09/C12); stamps compared per key because the code has one clock per shard"),
  "C02": dict(
   technique="TLA+ spec (ShardActors.tla: clients, FIFO mailboxes, shard actors, one-shot and pooled reply slots with acquire/send/receive/reset/cancel) model-checked with TLC incl. liveness; TLC-simulated behaviours projected to inv/run/recv/cancel schedules and replayed by polling real futures on a real ShardedActorState; free-running multi-thread histories recorded with tickets; every per-key history checked by TLC for a linearization (LinTrace.tla witness search against the register/counter specification)",
-  text="design level: every interleaving of 2 clients x 2 calls over 2 keys / 2 shards with pool capacity 1 satisfies ReplyMatchesRequest, NoSharedSlot, SlotDiscipline, and every uncancelled call returns; the guard-release switch reproduces the stale-reply counterexample. Implementation level: 2.5k/20k TLC schedules (3 clients x 3 calls, all five entry paths, one cancellation) polled in order on the real state with 1-2 slot pools, and 4k/60k free-running histories (3-8 client tasks, 4 worker threads, register + counter keys, cross-shard batches, scripts, cancellation); each per-key history must have a linearization",
+  text="design level: every interleaving of 2 clients x 2 calls over 2 keys / 2 shards with pool capacity 1 satisfies ReplyMatchesRequest, NoSharedSlot, SlotDiscipline, and every uncancelled call returns; the guard-release switch reproduces the stale-reply counterexample. Implementation level: 2.5k/20k TLC schedules (3 clients x 3 calls, all five entry paths, one cancellation) polled in order on the real state with 1-2 slot pools, and 4k/60k free-running histories (3-8 client tasks, 4 worker threads, register + counter keys, cross-shard batches, scripts, cancellation); each per-key history must have a linearization; plus bursts of 1.5k-5k (20k) calls queued at once with every key written once and read back, and the TTL manager's sweep polled against one client write in every order on every entry path",
   note="explored schedules only; multi-key commands judged per key; single node"),
  "C14": dict(
   technique="TLA+ spec (ImageLayout.tla: byte regions, roles and reader checks of segment / checkpoint / WAL entry images) model-checked with TLC (protection obligations, verdict totality); the CRDT value universe exported from Crdt.tla by TLC is rebuilt as real values and pushed through the four real codecs; real images under every cut and bit flip are read by the real readers and each answer is judged by TLC from the layout arithmetic (ImageTrace.tla)",
@@ -69,7 +69,7 @@ CHECKS = {
   note="hash collisions not modelled; 2 replicas; limits 1-3; kinds fixed per key"),
  "C19": dict(
   technique="TLA+ spec (Placement.tla) model-checked with TLC over every ring position assignment; TLC-enumerated memberships/join orders replayed on the real HashRing (observed through a hook) and GossipRouter/GossipState; results judged by TLC (PlaceTrace.tla) against Replicas/Targets recomputed from the observed ring",
-  text="design level: size/distinctness, prefix-in-rf, minimal disruption and router coverage for all rings of 3 nodes x 2 vnodes, with the as-built from_config counterexample; implementation level: for every join order (with leave/rejoin) of clusters up to 4-5 nodes and random memberships up to 6, replica lists for every rf, the ring with one more node, and the routing tables of every sender (new, from_config, queue_deltas) must equal what the specification derives from the observed ring",
+  text="design level: size/distinctness, prefix-in-rf, minimal disruption and router coverage for all rings of 3 nodes x 2 vnodes, with the as-built from_config counterexample; implementation level: for every join order (with leave/rejoin) of clusters up to 4-5 nodes and random memberships up to 6, replica lists for every rf, the ring with one more node, and the routing tables of every sender (new, from_config, queue_deltas) must equal what the specification derives from the observed ring; membership changing at run time (PlacementDyn.tla: join / learn / leave / forget as separate steps; dyn family through add_node/remove_node + update_peer/remove_peer with is_responsible, judged per epoch and between epochs)",
   note="positions as ranks; vnode counts {1,2,3,150}; 12 keys per case"),
  "C20": dict(
   category="other",
@@ -108,7 +108,7 @@ def main():
     hooks = json.load(open(os.path.join(V, "hooks.json")))
     m = {
         "version": 1,
-        "setup_cmd": "cd /verif/harness && RUSTC_WRAPPER= CARGO_NET_OFFLINE=true cargo build --profile verif --offline",
+        "setup_cmd": "cd /verif/harness && RUSTC_WRAPPER= CARGO_NET_OFFLINE=true cargo build --profile verif --offline && cd /verif/harness_acl && RUSTC_WRAPPER= CARGO_NET_OFFLINE=true cargo build --profile verif --offline",
         "hooks": hooks,
         "engines": [
             {"name": "tlc", "path": "/verif/spec", "kind_free_text": "TLA+ specifications model-checked with TLC; trace specifications validate ndjson traces recorded from the real code", "serves_properties": sorted(CHECKS)},
